@@ -49,19 +49,28 @@ def yieldto_cases(draw, ctx):
         np_ += k
         for p in pools:
             lines.append("pool %d kind=%s access=%s" % (p, kind, acc))
-        sched = {"fifo": draw(st.sampled_from(["basic", "prio"])), "fifo_wait": "basic_wait",
-                 "randws": "prio"}[kind]
+        sched = "prio"   # scans its pools in the given order and restarts after every unit
         lines.append("xs %d sched=%s pools=%s" % (x, sched, ",".join(map(str, pools))))
         a = len(units)
         targets = []
         for p in pools[1:]:
             for _ in range(draw(st.integers(1, 2))):
                 targets.append((a + 1 + len(targets), p))
-        prog = ["fwait %d" % x] + ["tyt %d" % tu for tu, _ in draw(st.permutations(targets))]
+        # the targets are created only once the yielder is running and polling in the first
+        # pool (flag 10+x): a scheduler that finds the first pool empty during its scan could
+        # otherwise run a target before the yielder got to it (yield_to needs a READY target)
+        prog = ["fset %d" % (10 + x), "fwait %d" % x] + \
+            ["tyt %d" % tu for tu, _ in draw(st.permutations(targets))]
         if draw(st.booleans()):
+            # the last yield_to is made with a migration request pending (to the primary
+            # stream's pool): the request is served inside the switch, and the blocked
+            # count taken for the yield_to must be given back to the pool it came from
+            prog.insert(len(prog) - 1, "migpool -1 0")
+        elif draw(st.booleans()):
             prog.append("work 1")
         units.append("unit %d type=ult named=0 pool=%d : %s" % (a, pools[0], "; ".join(prog)))
         main.append("create %d" % a)
+        main.append("fwait %d" % (10 + x))
         for tu, p in targets:
             units.append("unit %d type=ult named=1 pool=%d : %s" %   # (yield_to needs a handle)
                          (tu, p, draw(st.sampled_from(["nop", "work 1", "work 2"]))))
